@@ -15,17 +15,20 @@ package brontide
 //@
 //@ func (c *cipherState) InitializeKey
 //@   props C11
+//@   bounds-safe
 //@   ensures c.nonce == 0 && c.secretKey == key
 //@   site call chacha20poly1305.New: assert arg(0) == sliceof(c.secretKey) && c.secretKey == key
 //@   site store cipherState.cipher: assert value == retn(New, 0)
 //@
 //@ func (c *cipherState) InitializeKeyWithSalt
 //@   props C11
+//@   bounds-safe
 //@   ensures c.nonce == 0 && c.secretKey == key && c.salt == salt
 //@   site call InitializeKey: assert arg(0) == c && arg(key) == key && c.salt == salt
 //@
 //@ func (c *cipherState) rotateKey
 //@   props C11
+//@   bounds-safe
 //@   ensures c.nonce == 0
 //@   site call hkdf.New: assert arg(1) == sliceof(oldKey) && oldKey == old(c.secretKey) && arg(2) == sliceof(c.salt)
 //@   site call Read nth 0: assert arg(0) == ret(New) && arg(1) == sliceof(c.salt)
@@ -34,6 +37,7 @@ package brontide
 //@
 //@ func (c *cipherState) Encrypt
 //@   props C11
+//@   bounds-safe
 //@   requires c.nonce < 1000
 //@   ensures old(c.nonce) + 1 < 1000 ==> c.nonce == old(c.nonce) + 1 && c.secretKey == old(c.secretKey) && c.cipher == old(c.cipher)
 //@   ensures old(c.nonce) + 1 < 1000 ==> !called(rotateKey)
@@ -46,6 +50,7 @@ package brontide
 //@
 //@ func (c *cipherState) Decrypt
 //@   props C11
+//@   bounds-safe
 //@   requires c.nonce < 1000
 //@   ensures old(c.nonce) + 1 < 1000 ==> c.nonce == old(c.nonce) + 1 && c.secretKey == old(c.secretKey) && c.cipher == old(c.cipher)
 //@   ensures old(c.nonce) + 1 < 1000 ==> !called(rotateKey)
@@ -58,6 +63,7 @@ package brontide
 //@
 //@ func (b *Machine) split
 //@   props C11
+//@   bounds-safe
 //@   site call hkdf.New: assert arg(2) == sliceof(b.chainingKey)
 //@   site call Read nth 0: assert b.initiator  && arg(1) == sliceof(sendKey) && arg(0) == ret(New)
 //@   site call Read nth 1: assert b.initiator  && arg(1) == sliceof(recvKey) && arg(0) == ret(New)
@@ -70,6 +76,7 @@ package brontide
 //@
 //@ func (b *Machine) WriteMessage
 //@   props C11
+//@   bounds-safe
 //@   requires b.sendCipher.nonce < 999
 //@   ensures len(p) > 65535 ==> result == ErrMaxMessageLengthExceeded
 //@   ensures len(p) <= 65535 && (len(old(b.nextHeaderSend)) > 0 || len(old(b.nextBodySend)) > 0) ==> result == ErrMessageNotFlushed
@@ -82,6 +89,7 @@ package brontide
 //@
 //@ func (b *Machine) Flush
 //@   props C11
+//@   bounds-safe
 //@   let h0 = old(b.nextHeaderSend)
 //@   let b0 = old(b.nextBodySend)
 //@   let n1 = retn(Write, 0, 0)
@@ -101,6 +109,7 @@ package brontide
 //@
 //@ func (b *Machine) ReadHeader
 //@   props C11
+//@   bounds-safe
 //@   requires b.recvCipher.nonce < 1000
 //@   ensures result1 == nil ==> result0 == ret(Uint16) + 16 && retn(ReadFull, 1) == nil && retn(Decrypt, 1) == nil
 //@   site call ReadFull: assert arg(1) == sliceof(b.nextCipherHeader)
@@ -109,22 +118,26 @@ package brontide
 //@
 //@ func (b *Machine) ReadBody
 //@   props C11
+//@   bounds-safe
 //@   requires b.recvCipher.nonce < 1000
 //@   site call ReadFull: assert arg(1) == buf
 //@   site call Decrypt: assert arg(0) == addr(b.recvCipher) && arg(cipherText) == buf && retn(ReadFull, 1) == nil
 //@
 //@ func (b *Machine) RecvActOne
 //@   props C11
+//@   bounds-safe
 //@   site call ParsePubKey: assert actOne[0] == HandshakeVersion
 //@   site return nil: assert actOne[0] == HandshakeVersion && retn(DecryptAndHash, 1) == nil
 //@
 //@ func (b *Machine) RecvActTwo
 //@   props C11
+//@   bounds-safe
 //@   site call ParsePubKey: assert actTwo[0] == HandshakeVersion
 //@   site return nil: assert actTwo[0] == HandshakeVersion && retn(DecryptAndHash, 1) == nil
 //@
 //@ func (b *Machine) RecvActThree
 //@   props C11
+//@   bounds-safe
 //@   site call DecryptAndHash nth 0: assert actThree[0] == HandshakeVersion
 //@   site call split: assert actThree[0] == HandshakeVersion && retn(DecryptAndHash, 1, 0) == nil && retn(DecryptAndHash, 1, 1) == nil &&
 //@        retn(ParsePubKey, 1) == nil
@@ -132,6 +145,7 @@ package brontide
 //@
 //@ func (s *symmetricState) mixKey
 //@   props C11
+//@   bounds-safe
 //@   requires s != nil
 //@   site call hkdf.New: assert arg(1) == input && arg(2) == sliceof(salt)
 //@   site call Read nth 0: assert arg(1) == sliceof(s.chainingKey)
@@ -140,6 +154,7 @@ package brontide
 //@
 //@ func (s *symmetricState) mixHash
 //@   props C11
+//@   bounds-safe
 //@   requires s != nil
 //@   site call Write nth 0: assert arg(1) == sliceof(s.handshakeDigest)
 //@   site call Write nth 1: assert arg(1) == data
@@ -147,6 +162,7 @@ package brontide
 //@
 //@ func (s *symmetricState) EncryptAndHash
 //@   props C11
+//@   bounds-safe
 //@   requires s != nil && s.nonce < 1000
 //@   site call Encrypt: assert arg(1) == sliceof(s.handshakeDigest) && arg(3) == plaintext
 //@   site call mixHash: assert arg(1) == ret(Encrypt)
@@ -154,12 +170,14 @@ package brontide
 //@
 //@ func (s *symmetricState) InitializeSymmetric
 //@   props C11
+//@   bounds-safe
 //@   requires s != nil
 //@   site call Sum256: assert arg(0) == protocolName
 //@   site call InitializeKey: assert s.chainingKey == s.handshakeDigest
 //@
 //@ func ecdh
 //@   props C11
+//@   bounds-safe
 //@   site call ECDH: assert arg(1) == pub
 //@   ensures result1 == retn(ECDH, 1)
 //@
@@ -184,6 +202,7 @@ package brontide
 //@ // ---- a pooled buffer is handed back at most once: the machine forgets it when it returns it
 //@ func (b *Machine) releaseBuffers
 //@   props C11
+//@   bounds-safe
 //@   ensures b.pooledHeaderBuf == nil && b.pooledBodyBuf == nil && len(b.nextHeaderSend) == 0 && len(b.nextBodySend) == 0
 //@   site call Put nth 0: assert arg(1) == old(b.pooledHeaderBuf) && old(b.pooledHeaderBuf) != nil
 //@   site call Put nth 1: assert arg(1) == old(b.pooledBodyBuf) && old(b.pooledBodyBuf) != nil
